@@ -123,6 +123,16 @@ def read_back(fn, b):
         n = arr.shape[1]
         out["cols"] = [np.array(s[:, j], dtype=float).ravel() for j in range(n)]
         out["elem00"] = float(s[0, 0])
+        # the [ ] operator with the other kinds of keys NumPy arrays take: what it returns is what the same key returns on the array of samples
+        keys = {"[:, -1]": (slice(None), -1), "[:, -n]": (slice(None), -n), "[-1, :]": (-1, slice(None)), "[0, -1]": (0, -1), "[:, -2:]": (slice(None), slice(-2, None)),
+                "[:, ::2]": (slice(None), slice(None, None, 2)), "[:, [n-1, 0]]": (slice(None), [n - 1, 0]), "[-1]": -1, "[:-1, 1:]": (slice(None, -1), slice(1, None))}
+        got = {}
+        for name, key in keys.items():
+            try:
+                got[name] = (np.array(s[key], dtype=float), np.array(arr[key], dtype=float))
+            except Exception as e:
+                got[name] = (repr(e), None)
+        out["keys"] = got
     except Exception as e:  # an exception while reading a readable file is an observation
         out["error"] = repr(e)
     finally:
@@ -227,6 +237,17 @@ def run(tier, seed):
                     break
                 if rb["write_index"] != n:
                     bad = (b, f"write_index = {n}", rb["write_index"])
+                    break
+                for kname, (gk, ek) in rb.get("keys", {}).items():
+                    want = None
+                    try:
+                        want = eval("expect" + kname.replace("n-1", str(expect.shape[1] - 1)).replace("-n", str(-expect.shape[1])))
+                    except Exception:
+                        continue
+                    if isinstance(gk, str) or np.shape(gk) != np.shape(want) or not np.array_equal(gk, np.asarray(want, dtype=float), equal_nan=True):
+                        bad = (b, f"samples{kname} = appended[{b}:]{kname} = {np.asarray(want).tolist()}", gk if isinstance(gk, str) else np.asarray(gk).tolist())
+                        break
+                if bad:
                     break
                 if rb["misfits_shape"] != (n - b, 1):
                     # the documented layout of the HDF5 back end; "for both the HDF5 and the NPY back end" the accessors must agree
